@@ -263,7 +263,7 @@ history(const char *id, char *spec, void (*tail)(struct ly_ctx *ctx, const char 
             rc = ly_ctx_load_module(ctx, tok[1], strcmp(tok[2], "-") ? tok[2] : NULL, feats_parse(tok[3], farr, 16)) ? LY_SUCCESS : 1;
         } else if (!strcmp(tok[0], "I") && nt >= 4) {
             struct lys_module *m = ly_ctx_get_module(ctx, tok[1], strcmp(tok[2], "-") ? tok[2] : NULL);
-            rc = m ? lys_set_implemented(m, feats_parse(tok[3], farr, 16)) : LY_ENOTFOUND;
+            rc = m ? lys_set_implemented(m, feats_parse(tok[3], farr, 16)) : 99;     /* 99: no such module, nothing was called */
         } else if (!strcmp(tok[0], "C")) {
             rc = ly_ctx_compile(ctx);
         } else if (!strcmp(tok[0], "O") && nt >= 3) {
